@@ -5,6 +5,7 @@ package cxs
 
 import (
 	"encoding/hex"
+	"reflect"
 
 	"github.com/LiskHQ/lisk-engine/pkg/codec"
 
@@ -296,3 +297,75 @@ func uvar(b []byte) (uint64, int) {
 }
 
 var _ codec.EncodeDecodable
+
+// ---- locally built values with nil elements in []*T fields
+type NilRec struct {
+	K     string `json:"k"`
+	Name  string `json:"name"`
+	D     string `json:"d"`
+	N     int    `json:"n"`  // nil elements inserted
+	St    int    `json:"st"` // 0 Encode returned, 2 panic, 3 timeout
+	Same  bool   `json:"same"`
+	Panic string `json:"panic,omitempty"`
+}
+
+// RunNilElems decodes d, inserts nil elements into every []*T field (recursively through nested messages), and
+// compares Encode of the result with Encode of the decoded value.
+func RunNilElems(e *c08reg.Entry, d []byte, seed uint64) (NilRec, bool) {
+	rec := NilRec{K: "nil", Name: e.Name, D: hex.EncodeToString(d)}
+	v := e.New()
+	if err := v.Decode(append([]byte{}, d...)); err != nil {
+		return rec, false
+	}
+	want := hex.EncodeToString(v.Encode())
+	r := hx.NewRng(seed)
+	rec.N = insertNils(reflect.ValueOf(v), r, 0)
+	if rec.N == 0 {
+		return rec, false
+	}
+	st, msg := cx.Guard(func() { rec.Same = hex.EncodeToString(v.Encode()) == want })
+	rec.St, rec.Panic = st, msg
+	return rec, true
+}
+
+func insertNils(v reflect.Value, r *hx.Rng, depth int) int {
+	if depth > 5 {
+		return 0
+	}
+	for v.Kind() == reflect.Ptr {
+		if v.IsNil() {
+			return 0
+		}
+		v = v.Elem()
+	}
+	if v.Kind() != reflect.Struct {
+		return 0
+	}
+	n := 0
+	for i := 0; i < v.NumField(); i++ {
+		f := v.Field(i)
+		if !f.CanSet() {
+			continue
+		}
+		switch {
+		case f.Kind() == reflect.Slice && f.Type().Elem().Kind() == reflect.Ptr && f.Type().Elem().Elem().Kind() == reflect.Struct:
+			for j := 0; j < f.Len(); j++ {
+				n += insertNils(f.Index(j), r, depth+1)
+			}
+			out := reflect.MakeSlice(f.Type(), 0, f.Len()+2)
+			for j := 0; j <= f.Len(); j++ {
+				if r.Intn(2) == 0 {
+					out = reflect.Append(out, reflect.Zero(f.Type().Elem()))
+					n++
+				}
+				if j < f.Len() {
+					out = reflect.Append(out, f.Index(j))
+				}
+			}
+			f.Set(out)
+		case f.Kind() == reflect.Ptr && f.Type().Elem().Kind() == reflect.Struct:
+			n += insertNils(f, r, depth+1)
+		}
+	}
+	return n
+}
